@@ -228,7 +228,9 @@ func (in *Interp) stmt(s gast.Stmt) {
 	case gast.Switch:
 		in.switchStmt(x)
 	case gast.Return:
-		panic(returnSig{in.eval(x.X, true)})
+		// `return f();` with a value-less f() has nothing to return: outside
+		// what is specified (today: stack underflow)
+		panic(returnSig{in.eval(x.X, false)})
 	case gast.FuncDef:
 		// definitions are collected up front; a definition that is not at
 		// top level is outside what the generators produce.
